@@ -101,6 +101,18 @@ def compare_code(ctx, name, calc, calc6, d, tag=''):
     bf = calc.preene2betafree(1.0, **d)
     L = calc.Lij(*bf)
     L6 = calc6.Lij(*bf)
+    # the same object switched to the denser Green-function calculator must give what a calculator built with it gives
+    try:
+        calc.GFcalc = calc.GFcalculator(6)
+        L46 = calc.Lij(*bf)
+    finally:
+        calc.GFcalc = calc.GFcalculator(4)
+    for k, lab in enumerate(LABELS):
+        dv = np.abs(np.asarray(L46[k]) - np.asarray(L6[k])).max()
+        if not (dv <= 1e-10 * max(np.abs(np.asarray(L6[0])).max(), np.abs(np.asarray(L6[k])).max())):
+            ctx.violation('gf-range-switch:%s:%s%s' % (lab, name, tag), '%s after switching the Green-function calculator of one VacancyMediated object from NGFmax 4 to 6 '
+                          'differs by %.3g from a calculator constructed with NGFmax 6 (stale cached values?)' % (lab, dv),
+                          dict(calculator=name, nthermo=calc.Nthermo, data=vc.jsonable(d), switched=np.asarray(L46[k]).tolist(), fresh=np.asarray(L6[k]).tolist()))
     ext, err, _ = oc.extrapolate(calc, bf, sizes_for(calc, ctx.quick))
     os_tag = 'originstates' if len(calc.OSindices) > 0 else 'no-originstates'
     if len(calc.sitelist) > 1 and 'preS' in d and (np.ptp(d['eneS']) > 1e-12 or np.ptp(d['preS']) > 1e-12):
